@@ -1,5 +1,5 @@
 import GceTcb.Base.Line
-import GceTcb.Model.Rotate
+import GceTcb.Model.RotateKms
 /- Driver handler for stream `c10` (fault-scripted key rotation). -/
 namespace GceTcb.Drive.C10
 open GceTcb GceTcb.CA
@@ -26,6 +26,11 @@ def showCall : Call → String
   | .stW o => "st.w." ++ o
   | .stWr o => "st.wr." ++ o
   | .stC o => "st.c." ++ o
+  | .kmsCreate => "kms.create"
+  | .kmsGet k => "kms.get." ++ k
+  | .kmsPub k => "kms.pub." ++ k
+  | .kmsSign k => "kms.sign." ++ k
+  | .kmsDestroy k => "kms.destroy." ++ k
 
 def showFault : Fault → String
   | .ok => ""
@@ -107,6 +112,45 @@ def initialState (cfg : Cfg) (hist : Nat) : St :=
   let s0 := (bootstrap cfg0 "root" "sk" ⟨"rootcn", 1⟩ ⟨"sigcn", 2⟩ false noFault St.init).state.reload
   (List.range hist).foldl (fun s i => (rotateKey cfg0 ⟨"sig", 3 + i⟩ noFault s).state.reload) s0
 
+def showKState : KState → String
+  | .pending n => "P" ++ toString n
+  | .disabled => "D"
+  | .scheduled => "S"
+  | .destroyed => "X"
+  | .genFailed => "F"
+
+/-- states of the versions 1..kcount of the signing cryptoKey, in creation order -/
+def showVers (parent : String) (s : St) : String :=
+  let items := (List.range s.kcount).map fun i =>
+    let n := verName parent (i + 1)
+    let st := match lookup s.keys n with
+      | some _ => "E"
+      | none => match lookup s.kdead n with
+        | some k => showKState k
+        | none => "?"
+    toString (i + 1) ++ ":" ++ st
+  "vers=" ++ ",".intercalate items
+
+def parseKState (str : String) : Option KState :=
+  match str with
+  | "D" => some .disabled
+  | "S" => some .scheduled
+  | "X" => some .destroyed
+  | "F" => some .genFailed
+  | _ => none
+
+def kmsEnvOf (f : Fields) (parent : String) : KmsEnv :=
+  { parent := parent, gen := f.nat "gen", final := parseKState (f.get "final"),
+    deadline := f.bool "dl", corrupt := f.get "cor" != "-" && f.get "cor" != "" }
+
+/-- rotate.Bootstrap on the Cloud KMS stack (fault-free: root cryptoKey version 1, signing cryptoKey
+    version 1), followed by `hist` fault-free rotations (serials 3, 4, …), reloaded -/
+def initialStateKms (cfg : Cfg) (parent rootKey : String) (perm : Bool) (hist : Nat) : St :=
+  let cfg0 := { cfg with overwrite := false }
+  let s0 := (bootstrap cfg0 rootKey (verName parent 1) ⟨"rootcn", 1⟩ ⟨"sigcn", 2⟩ perm noFault St.init).state.reload
+  let s0 := { s0 with kcount := 1 }
+  (List.range hist).foldl (fun s i => (rotateKeyKms cfg0 { parent := parent } ⟨"sig", 3 + i⟩ noFault s).state.reload) s0
+
 def showRes : Res String → String
   | .ok k _ => "ok." ++ k
   | .err _ => "err"
@@ -124,6 +168,19 @@ def handle (f : Fields) : String :=
     let r2 := run { cfg with overwrite := true } ⟨f.get "cn", f.nat "rserial"⟩ noFault s1'
     let s2 := r2.state
     s!"log={showLog s1.log} res={showRes r1} {showState cfg s1'} rlog={showLog s2.log} retry={showRes r2} {showState cfg s2.reload}"
+  | "rotk" =>
+    -- the Cloud KMS stack: gcpkms manager + gcpkms signer + gcsca
+    let cfg := mkCfg f (f.bool "ow")
+    let parent := f.get "parent"
+    let env := kmsEnvOf f parent
+    let s0 := initialStateKms cfg parent (f.get "rootkey") (f.bool "perm") (f.nat "hist")
+    let run := if f.get "order" == "early" then rotateKeyKmsEarlyDestroy else rotateKeyKms
+    let r1 := run cfg env ⟨f.get "cn", f.nat "serial"⟩ (parseScript (f.get "script")) s0
+    let s1 := r1.state
+    let s1' := s1.reload
+    let r2 := run { cfg with overwrite := true } { parent := parent } ⟨f.get "cn", f.nat "rserial"⟩ noFault s1'
+    let s2 := r2.state
+    s!"log={showLog s1.log} res={showRes r1} {showState cfg s1'} {showVers parent s1'} rlog={showLog s2.log} retry={showRes r2} {showState cfg s2.reload} {showVers parent s2}"
   | _ => "bad-op"
 
 end GceTcb.Drive.C10
